@@ -1,8 +1,124 @@
-(* C13 — property theorems only.  Proofs live in Proofs/JsonProofs.v, Proofs/JsonFragProofs.v. *)
+(* C13 — property theorems only.  Proofs live in Proofs/JsonProofs.v, Proofs/JsonFragProofs.v.
+
+   [V_fixed] is the model of jsontools.py with the three repairs of /verif/fixes/C13-*.patch,
+   [V_current] the model of the tree as it is (the correspondence run detects which shape the
+   tree under test has and compares the implementation with that instance of the model).
+   For [V_current] the statements below are refuted by the witnesses at the end. *)
 From Coq Require Import List String Bool Arith ZArith.
-From Annet Require Import Base.Str Model.Json Spec.P_C13 Proofs.JsonProofs.
+From Annet Require Import Base.Str Model.Json Spec.P_C13 Proofs.JsonProofs Proofs.JsonFragProofs.
 Import ListNotations.
 Open Scope string_scope.
+
+(* Guard [wf_C13 pats old f]: dict invariant (unique keys), old and f of one schema, no glob
+   pointer of the list ever steps into an array, none is the root pointer.  Unbounded:
+   any depth, any number of keys (with "/", "~", "|", "*" or anything else in them), any
+   number of patterns, any glob. *)
+
+(* merging never raises on the domain *)
+Theorem C13_total :
+  forall acl pats old f,
+    parse_acl acl = Some pats -> wf_C13 pats old f = true ->
+    exists r, apply_fragment V_fixed old f acl = Some r.
+Proof.
+  intros acl pats old f Hp Hwf. destruct (fragment_main acl pats old f Hp Hwf) as [r [E _]].
+  exists r. exact E.
+Qed.
+Print Assumptions C13_total.
+
+(* r|acl = f|acl : on every selected path the result has exactly what the fragment has
+   there — and nothing where the fragment has nothing (keys the fragment lacks are removed) *)
+Theorem C13_inside :
+  forall acl pats old f r,
+    parse_acl acl = Some pats -> wf_C13 pats old f = true ->
+    apply_fragment V_fixed old f acl = Some r ->
+    forall p, restrict pats r p = restrict pats f p.
+Proof.
+  intros acl pats old f r Hp Hwf Hr. destruct (fragment_main acl pats old f Hp Hwf) as [r' [E [H _]]].
+  rewrite E in Hr. injection Hr as Hr. subst r'. exact H.
+Qed.
+Print Assumptions C13_inside.
+
+(* r|not acl = old|not acl : every leaf that is not at or below a selected path is as in old *)
+Theorem C13_outside :
+  forall acl pats old f r,
+    parse_acl acl = Some pats -> wf_C13 pats old f = true ->
+    apply_fragment V_fixed old f acl = Some r ->
+    forall p, outside pats r p = outside pats old p.
+Proof.
+  intros acl pats old f r Hp Hwf Hr. destruct (fragment_main acl pats old f Hp Hwf) as [r' [E [_ [H _]]]].
+  rewrite E in Hr. injection Hr as Hr. subst r'. exact H.
+Qed.
+Print Assumptions C13_outside.
+
+(* merging again changes nothing (Leibniz equality, key order included) *)
+Theorem C13_idem :
+  forall acl pats old f r,
+    parse_acl acl = Some pats -> wf_C13 pats old f = true ->
+    apply_fragment V_fixed old f acl = Some r ->
+    apply_fragment V_fixed r f acl = Some r.
+Proof.
+  intros acl pats old f r Hp Hwf Hr. destruct (fragment_main acl pats old f Hp Hwf) as [r' [E [_ [_ [H _]]]]].
+  rewrite E in Hr. injection Hr as Hr. subst r'. exact H.
+Qed.
+Print Assumptions C13_idem.
+
+(* the boolean predicate that the correspondence run evaluates on the implementation's
+   outputs holds on the model's outputs (domain guard of the predicate: dom_frag) *)
+Theorem C13_holds :
+  forall acl pats old f,
+    parse_acl acl = Some pats -> wf_C13 pats old f = true ->
+    P_C13_frag (old, f, acl) (frag_outcome V_fixed (old, f, acl)) = true.
+Proof. exact fragment_holds. Qed.
+Print Assumptions C13_holds.
+
+(* Partial: proved for filters that address object members (a filter stepping into an array
+   is outside [wf_filter]; the array case is covered by the correspondence only).
+   Whenever apply_acl_filters returns, the result is a sub-document of the filtered one. *)
+Theorem C13_filter_subdoc_partial :
+  forall d F r,
+    wf_filter d F = true -> apply_acl_filters V_fixed d F = Some r -> subdoc r d = true.
+Proof. exact filter_subdoc. Qed.
+Print Assumptions C13_filter_subdoc_partial.
+
+(* non-vacuity of the guard: nested objects, keys with "/", "~", "|", "*", an array and a
+   string as leaves, globs; the merge adds, replaces and removes *)
+Definition ex_old : json :=
+  JObj [("PORT", JObj [("Eth1/1", JObj [("mtu", JNum 1500); ("alias", JStr "a~b")]);
+                       ("Eth1/2", JObj [("mtu", JNum 9000)])]);
+        ("k*|x", JArr [JNum 1; JNum 2]);
+        ("~keep", JNull)].
+Definition ex_f : json :=
+  JObj [("PORT", JObj [("Eth1/1", JObj [("mtu", JNum 9100)]);
+                       ("Eth1/3", JObj [("mtu", JNum 1500); ("alias", JStr "new")])]);
+        ("k*|x", JArr [JNum 3])].
+Definition ex_acl : list string := ["/PORT/Eth1~1[13]/*"; "/k[*]|?"].
+
+Example C13_example_guard :
+  exists pats, parse_acl ex_acl = Some pats /\ wf_C13 pats ex_old ex_f = true.
+Proof. eexists. split; vm_compute; reflexivity. Qed.
+
+Example C13_example_result :
+  apply_fragment V_fixed ex_old ex_f ex_acl =
+  Some (JObj [("PORT", JObj [("Eth1/1", JObj [("mtu", JNum 9100)]);
+                             ("Eth1/2", JObj [("mtu", JNum 9000)]);
+                             ("Eth1/3", JObj [("mtu", JNum 1500); ("alias", JStr "new")])]);
+              ("k*|x", JArr [JNum 3]);
+              ("~keep", JNull)]).
+Proof. vm_compute. reflexivity. Qed.
+
+Example C13_example_predicate :
+  P_C13_frag (ex_old, ex_f, ex_acl) (frag_outcome V_fixed (ex_old, ex_f, ex_acl)) = true /\
+  dom_frag (ex_old, ex_f, ex_acl) = true.
+Proof. vm_compute. split; reflexivity. Qed.
+
+Example C13_example_filter :
+  wf_filter ex_old [" /PORT/*/mtu"; ""; "/~0keep "] = true /\
+  apply_acl_filters V_fixed ex_old [" /PORT/*/mtu"; ""; "/~0keep "] =
+  Some (JObj [("PORT", JObj [("Eth1/1", JObj [("mtu", JNum 1500)]); ("Eth1/2", JObj [("mtu", JNum 9000)])]);
+              ("~keep", JNull)]).
+Proof. vm_compute. split; reflexivity. Qed.
+
+(* ---- patches ---- *)
 
 (* make_patch as it is in the current tree — sorted(library ops, key=path) — does not
    reproduce the target: a correct operation list applies differently once sorted. *)
@@ -11,6 +127,11 @@ Theorem C13_sorted_refuted :
     apply_ops ops a = Some b /\ apply_ops (make_patch_of V_current ops) a <> Some b.
 Proof. exact sorted_refuted. Qed.
 Print Assumptions C13_sorted_refuted.
+
+Theorem C13_sorted_refuted_raises :
+  exists a ops, apply_ops ops a <> None /\ apply_ops (make_patch_of V_current ops) a = None.
+Proof. exact sorted_refuted_raises. Qed.
+Print Assumptions C13_sorted_refuted_raises.
 
 (* Partial: the third-party diff is assumed correct (hypothesis on D, validated case by
    case in the correspondence).  With the library's order kept (fixes/C13-make-patch-order)
@@ -22,9 +143,25 @@ Theorem C13_patch_roundtrip_partial :
 Proof. intros D HD a b. apply patch_roundtrip_keep_order; [exact HD | reflexivity]. Qed.
 Print Assumptions C13_patch_roundtrip_partial.
 
-(* current tree: matched keys containing "/" or "~" are re-parsed without escaping *)
+(* ---- the current tree ---- *)
+
+(* matched keys containing "/" or "~" are re-parsed without escaping: a one-schema input
+   on which the current model violates the predicate and the repaired one satisfies it *)
 Theorem C13_unescaped_refuted :
   exists x, dom_frag x = true /\ P_C13_frag x (frag_outcome V_current x) = false /\
             P_C13_frag x (frag_outcome V_fixed x) = true.
 Proof. exact unescaped_refuted. Qed.
 Print Assumptions C13_unescaped_refuted.
+
+(* a str is treated as a Sequence: the filter returns characters of a string *)
+Theorem C13_strseq_refuted :
+  exists d F, P_C13_filter (d, F) (apply_acl_filters V_current d F) = false /\
+              P_C13_filter (d, F) (apply_acl_filters V_fixed d F) = true.
+Proof. exact strseq_filter_refuted. Qed.
+Print Assumptions C13_strseq_refuted.
+
+(* outside the guard, both trees: a pattern stepping into an array *)
+Theorem C13_array_step_refuted :
+  exists x, dom_frag x = true /\ P_inside x (frag_outcome V_fixed x) = false.
+Proof. exact array_step_refuted. Qed.
+Print Assumptions C13_array_step_refuted.
